@@ -453,3 +453,97 @@ def c07(a):
     v.cov["exhaustive"] = True
     v.sample({"text": "x1 | ( 2", "dmg": "paren_deleted"})
     return v.finish()
+
+
+@register("C14")
+def c14(a):
+    v = Verdict("C14", a.tier, "model_checking")
+    what = "operand tracking"
+    q = a.tier == "quick"
+    # (1) bit-level tracker model vs alive-vector meaning, all reachable states = all schedules
+    trk = [dict(W=4, NW=5, N=17 if not q else 13, SingleWord=False), dict(W=3, NW=5, N=13 if not q else 12, SingleWord=False),
+           dict(W=4, NW=5, N=16, SingleWord=False), dict(W=4, NW=3, N=8, SingleWord=False),
+           dict(W=12 if not q else 10, NW=1, N=12 if not q else 10, SingleWord=True), dict(W=4, NW=1, N=4, SingleWord=True)]
+    if not q:
+        trk.append(dict(W=5, NW=4, N=18, SingleWord=False))
+    jobs = []
+    for c in trk:
+        c["NW"] = 1 if c["SingleWord"] else 1 + c["N"] // c["W"]
+    for k, c in enumerate(trk):
+        cfg = work("C14", f"tracker-{k}.cfg")
+        write_cfg(cfg, c, invariants=["Agree", "BitsMeanDead", "Final"])
+        jobs.append(lambda cfg=cfg, k=k: vlib.run_tlc("Tracker", cfg, f"C14-tracker-{k}", workers=4, timeout=1500, heap="3g"))
+    for c, res in zip(trk, parallel(jobs, 4)):
+        if not res.ok:
+            print(res.out[-3000:])
+            raise vlib.ToolError(f"Tracker model {c}: {res.violated or res.error} - spec bug")
+        v.add_tlc(res, f"Tracker[W={c['W']},NW={c['NW']},N={c['N']},single={c['SingleWord']}]")
+    v.notes.append("Tracker.tla: bit-level usize/[usize] tracker (rotate, leading/trailing ones, carry across words, allocation rule "
+                   "1 + n/W) equals the alive-vector meaning in every reachable state (= every schedule) for the word sizes listed")
+    # (2) all application orders: models + real trackers at the word boundaries + public API
+    nops_sched = 7 if q else 8
+    tag = "C14/mcsched"
+    cfg = work(tag + ".cfg")
+    write_cfg(cfg, {"NOps": nops_sched, "Bases": ("=", "{0, 55, 58, 62, 120, 125}"), "Emit": True}, invariants=["ConsumedOnce", "EmitCases"])
+    res, summ, obsp = pipeline.gen_replay_shard("MC_Sched", cfg, tag, ["tracker"], workers=16)
+    if res.violated or res.error:
+        print(res.out[-3000:])
+        raise vlib.ToolError(f"MC_Sched: {res.violated or res.error} - spec bug")
+    v.add_tlc(res, f"MC_Sched[{nops_sched} operators]")
+    v.cov["traces_validated_against_impl"] += summ["runs"]
+    v.cov["evaluations"] += summ["runs"]
+    if summ["forwarded"]:
+        r, verdicts = pipeline.judge_expr(obsp, "C14-jsched", module="Judge_Sched")
+        v.add_tlc(r, "Judge_Sched")
+        recs = {}
+        for line in open(obsp):
+            qq = json.loads(line)
+            recs[qq["case"]] = qq
+        for case, (cls, verdict, entry) in verdicts.items():
+            if verdict != "ok":
+                v.violation({"record": recs.get(case)}, f"{what}: real {cls} tracker at base {recs.get(case, {}).get('base')} order "
+                            f"{recs.get(case, {}).get('order')}: {verdict}")
+    v.notes.append(f"direction A (tracker hook): {summ['cases']} (order, base) cases = all {nops_sched}! application orders at 6 offsets "
+                   f"around the 63|64 and 127|128 boundaries on the real usize and [usize] trackers ({summ['runs']} runs)")
+    nops_chain = 7 if q else 8
+    tag = "C14/mcchain"
+    cfg = work(tag + ".cfg")
+    write_cfg(cfg, {"NOps": nops_chain, "Emit": True, "BumpGuard": True, "FoldRule": "local"}, invariants=["ModelsAgree", "EmitCases"])
+    ents = ["flat", "flat_wo", "deep", "f2d", "d2f"]
+    res, summ, obsp = pipeline.gen_replay_shard("MC_Chain", cfg, tag, ["expr", "--entries", ",".join(ents)], workers=16)
+    if res.violated or res.error:
+        print(res.out[-3000:])
+        raise vlib.ToolError(f"MC_Chain: {res.violated or res.error} - spec bug")
+    v.add_tlc(res, f"MC_Chain[{nops_chain} operators]")
+    v.cov["traces_validated_against_impl"] += summ["runs"]
+    v.cov["evaluations"] += summ["runs"]
+    judge_and_classify(v, "C14", [obsp], "dirA-chain", what)
+    v.notes.append(f"direction A (public API): {summ['cases']} chains = all {nops_chain}! placements of operators with distinct priorities "
+                   f"({nops_chain + 1} operands) through {ents}; FlatImpl/DeepImpl give exactly the reference tree for each (ModelsAgree)")
+    # (3) long chains across the word boundaries through the public API
+    n = 114 if q else 570
+    jobs = []
+    for k in range(12):
+        tag = f"C14/fuzz-chain-{k}"
+        jobs.append(lambda tag=tag, k=k: (tag,) + pipeline.fuzz_replay(
+            tag, ["fuzz-expr", "--family", "chain", "--n", str(n // 12 + 1), "--stream", str(k)],
+            ["--forward-all", "--entries", "flat,flat_wo,deep,f2d,d2f"]))
+    good = []
+    for tag, summ, obsp in parallel(jobs):
+        if summ.get("crashed"):
+            v.violation({"pipeline": tag, "detail": summ}, f"{what}: the library aborted the recorder process in {tag}")
+        else:
+            good.append((tag, obsp))
+            v.cov["traces_validated_against_impl"] += summ["runs"]
+            v.cov["evaluations"] += summ["runs"]
+    for p, (r, verdicts) in parallel([(lambda t=t, p=p: (p, pipeline.judge_expr(p, t.replace("/", "-")))) for t, p in good], 12):
+        v.add_tlc(r, f"Judge_Expr[{os.path.basename(p)}]")
+        file_verdicts(v, p, verdicts, what)
+    v.notes.append("direction B: chains of 9..300 operands (sizes 31-33, 63-66, 127-130, 191-194, 257, 300) with ascending, descending, "
+                   "alternating, inside-out, random and strided priority patterns (up to 90 priority levels, ties beyond), judged from the text")
+    v.cov["rule"] = "all permutations of application order for <= 8/9 operands (exhaustive) + structured/random orders for long chains"
+    v.cov["distinct_nontrivial"] = summ.get("cases", 0)
+    v.cov["exhaustive"] = True
+    v.sample({"order": [3, 0, 2, 1], "base": 62, "kind": "slice"})
+    v.assumptions.append("the code adds the literal 64 per all-ones word; the model adds W (equal where usize::BITS = 64)")
+    return v.finish()
